@@ -14,6 +14,12 @@ import (
 
 // AwaitConnect waits until a pair is selected.
 func (a *Agent) AwaitConnect(ctx context.Context) error {
+	// A closed agent reports the closed error even if it had connected before:
+	// with both channels ready the select below would pick either.
+	if err := a.loop.Err(); err != nil {
+		return err
+	}
+
 	select {
 	case <-a.loop.Done():
 		return a.loop.Err()
